@@ -185,7 +185,9 @@ fn process_dir(
     // using current_dir is a workaround to check leaving directory.
     let mut current_dir: Option<PathBuf> = None;
     while let Some(result) = it.next() {
-        match WalkEntry::from_walkdir(result, config.follow) {
+        match WalkEntry::from_walkdir(result, config.follow)
+            .map(|entry| entry.with_starting_point(std::path::Path::new(dir)))
+        {
             Err(err) => {
                 ret = 1;
                 writeln!(&mut stderr(), "Error: {err}").unwrap();
